@@ -246,6 +246,9 @@ func (in *Interp) call(caller *frame, fn Value, args []Value, site ssa.Instructi
 
 func (in *Interp) callOpaqueMethod(m *opaqueMethod, args []Value) Value {
 	sig := m.meth.Type().(*types.Signature)
+	if st, ok := m.recv.V.(*md5State); ok {
+		return in.callMD5Method(st, m.meth.Name(), args, sig)
+	}
 	if m.meth.Name() == "Error" || m.meth.Name() == "String" {
 		if oe, ok := m.recv.V.(*opaqueErr); ok {
 			return "opaque error " + oe.Name
